@@ -114,15 +114,15 @@ static std::vector<int> lane_weights(const std::string &lane, Rng &r) {
         w[OP_flush] = 3; w[OP_kill] = 3; w[OP_dim_append] = 3;
     } else if (lane == "tree" || lane == "durable") {
         w_set(w, links, 5); w_set(w, attrs, 4); w_set(w, props, 4); w_set(w, deletes, 2); w_set(w, arrdata, 2); w_set(w, dimops, 3); w_set(w, frameops, 2);
-        w[OP_arr_write] = 5; w[OP_reopen] = 12; w[OP_flush] = 4; w[OP_kill] = 4; w[OP_clock] = 4; w[OP_mk_graph] = 3;
+        w[OP_arr_write] = 5; w[OP_reopen] = 12; w[OP_flush] = 4; w[OP_kill] = 4; w[OP_clock] = 4; w[OP_mk_graph] = 3; w[OP_mk_fitted] = 1;
         if (lane == "durable") { w[OP_flush] = 14; w[OP_kill] = 14; w[OP_flush_fault] = 6; w[OP_use_stale] = 14; w[OP_keep] = 4; w[OP_drop] = 1; w[OP_reopen] = 10;
                                  w[OP_arr_read] = 6; w[OP_frame_read_row] = 4; w[OP_dim_read] = 3; }
     } else if (lane == "names" || lane == "idhist") {
-        w[OP_mk_graph] = 4; if (lane == "idhist") { w[OP_force_id] = 3; w[OP_clock] = 6; }
+        w[OP_mk_graph] = 4; w[OP_mk_fitted] = 2; if (lane == "idhist") { w[OP_force_id] = 3; w[OP_clock] = 6; }
         w_set(w, create_core, 14); w_set(w, deletes, 7); w[OP_prop_create] = 12; w[OP_feat_create] = 8; w[OP_tag_addref] = 10; w[OP_tag_rmref] = 5;
         w[OP_group_add] = 10; w[OP_group_rm] = 5; w[OP_add_source] = 10; w[OP_rm_source] = 5; w[OP_reopen] = 10; w[OP_set_sources] = 2; w[OP_tag_setrefs] = 2; w[OP_group_set] = 2;
     } else if (lane == "delete") {
-        w[OP_mk_graph] = 8;
+        w[OP_mk_graph] = 8; w[OP_mk_fitted] = 7;
         w_set(w, create_core, 10); w_set(w, links, 10); w_set(w, deletes, 9); w[OP_prop_create] = 5; w[OP_dim_append] = 8; w[OP_reopen] = 8; w[OP_use_stale] = 5; w[OP_abuse_tag] = 2;
     } else if (lane == "reject") {
         w_set(w, create_core, 9); w_set(w, links, 6); w_set(w, attrs, 5); w_set(w, props, 6); w_set(w, arrdata, 5); w_set(w, dimops, 7); w_set(w, frameops, 4); w_set(w, deletes, 2);
@@ -250,6 +250,17 @@ Plan generate_plan(const std::string &lane, uint64_t seed, int tier) {
             else after_flush = false;
         }
         p.ops.push_back(op);
+        if (op.kind == OP_mk_fitted && r.chance(3, 4)) {
+            // the entity the fitted link points to is deleted next (same block and slot selectors, population unchanged in between)
+            static const int victim_del[12] = {OP_delete_array, OP_delete_array, OP_delete_array, OP_delete_array, OP_delete_array, OP_delete_frame, OP_delete_tag,
+                                               OP_delete_mtag, OP_delete_source, OP_delete_section, OP_delete_section, OP_delete_frame};
+            int k = ((unsigned) op.a[2]) % 12;
+            Op d = mk(victim_del[k]);
+            d.a[0] = (k == 9 || k == 10) ? op.a[1] : op.a[0];
+            d.a[1] = op.a[1];
+            p.ops.push_back(d);
+            i++;
+        }
     }
     if (lane == "modes") p.ops.push_back(mk(OP_ro_catalogue));
     if (lane == "version") p.ops.push_back(mk(OP_version_cube));
